@@ -65,14 +65,132 @@ def _dist_ext():
             "zeros_like": lambda a, k: Poly(), "ones_like": lambda a, k: Poly.const(1)}
 
 
-def _eval_method(cls, mname, argnames):
+IMPORT_TIME_WIDTH = {"torch": 32, "tf": 32, "tensorflow": 32, "jnp": 64, "jax": 64, "np": 64, "numpy": 64}  # default float width when the backend MODULE is imported (jax: the module switches x64 on first)
+
+
+def _module_constants(module):
+    """Module-level `NAME = <tensor library constructor>(<number>)`: evaluated the way the import evaluates it -- with the
+    library's import-time default float width, which is NOT the precision a backend instance is later configured with.
+    A value narrowed to 32 bits is the opaque f32<value>."""
+    out = {}
+
+    def ctor(lib_width):
+        def f(a, k):
+            dt = k.get("dtype")
+            txt = getattr(dt, "name", str(dt)) if dt is not None else ""
+            wide = ("64" in txt or "double" in txt) if dt is not None else lib_width == 64
+            v = to_poly(a[0])
+            return v if wide else fn("f32", v)
+        return f
+
+    for st in module.tree.body:
+        if not (isinstance(st, (ast.Assign, ast.AnnAssign)) and st.value is not None):
+            continue
+        tgt = st.targets[0] if isinstance(st, ast.Assign) else st.target
+        if not isinstance(st.value, ast.Call) or (A.dotted(st.value.func) or "").split(".")[0] in ("math",):
+            # plain numbers: python floats are binary64 whatever any tensor library defaults to
+            if isinstance(tgt, ast.Name) and isinstance(st.value, (ast.Call, ast.BinOp, ast.Constant, ast.UnaryOp)):
+                try:
+                    v_ = Interp(dict(out), {}, {}).eval(st.value)
+                    if isinstance(v_, Poly):
+                        out[tgt.id] = v_
+                except Exception:  # noqa: BLE001
+                    pass
+            continue
+        d = A.dotted(st.value.func) or ""
+        root, _, attr = d.partition(".")
+        attr = attr.split(".")[-1]
+        if not isinstance(tgt, ast.Name) or root not in IMPORT_TIME_WIDTH:
+            continue
+        if attr in ("tensor", "as_tensor", "constant", "array", "asarray", "convert_to_tensor", "float32", "float64", "double"):
+            width = 32 if attr == "float32" else (64 if attr in ("float64", "double") else IMPORT_TIME_WIDTH[root])
+            try:
+                out[tgt.id] = Interp({}, {}, {}, externals={attr: ctor(width)}).eval(st.value)
+            except Undecided:
+                continue
+    return out
+
+
+def _eval_method(cls, mname, argnames, selfattrs=None):
     m = cls.methods[mname]
     env = {p: Poly.atom(p) for p in argnames}
     env.update({"norm": Obj("norm"), "poisson": Obj("poissonlib")})
+    env.update(_module_constants(cls.module))
     # representatives: a generic interior point (n, lam, sigma > 0) decides guards such as `lam == 0`
     region = {"n": Fraction(3), "lam": Fraction(5, 2), "x": Fraction(1, 3), "mu": Fraction(1, 7), "sigma": Fraction(9, 8), "rate": Fraction(5, 2)}
-    it = Interp(env, {}, region, methods={k: v.node for k, v in cls.methods.items() if k in PROB_METHODS}, cls_name=cls.name, externals=_dist_ext())
+    if selfattrs is None:  # a 64-bit instance in a fresh process
+        ident = PyFunc(lambda a, k: to_poly(a[0]), "float64")
+        selfattrs = {"precision": "64b", "name": cls.name.replace("_backend", ""), "default_do_grad": False, "dtypemap": {"float": ident, "int": ident, "bool": PyFunc(lambda a, k: a[0], "bool")}}
+        for name, v in (cls.attrs or {}).items():
+            if isinstance(v, ast.Dict) and not v.keys:
+                selfattrs[name] = {}
+            elif isinstance(v, (ast.List, ast.Set)) and not v.elts:
+                selfattrs[name] = []
+    it = Interp(env, selfattrs, region, methods={k: v.node for k, v in cls.methods.items() if k in PROB_METHODS}, cls_name=cls.name, externals=_dist_ext())
     return it.run(A.strip_docstring(m.node.body))
+
+
+def _width_history(ctx, rid, classes):
+    """One process, per backend class: an instance configured for 32 bits evaluates every probability primitive, then an
+    instance configured for 64 bits does.  Class-level containers are ONE object for both instances, module-level constants
+    are what the import made them.  The 64-bit instance's expressions must contain nothing narrowed to 32 bits and must be
+    what the same instance gives in a fresh process."""
+    sigs = {"poisson_logpdf": ["n", "lam"], "poisson": ["n", "lam"], "normal_logpdf": ["x", "mu", "sigma"], "normal": ["x", "mu", "sigma"], "normal_cdf": ["x", "mu", "sigma"]}
+
+    def attrs_for(cls, width, shared):
+        cast = (lambda a, k: fn("f32", to_poly(a[0]))) if width == 32 else (lambda a, k: to_poly(a[0]))
+        d = {"precision": f"{width}b", "name": cls.name.replace("_backend", ""), "default_do_grad": False,
+             "dtypemap": {"float": PyFunc(cast, f"float{width}"), "int": PyFunc(lambda a, k: to_poly(a[0]), f"int{width}"), "bool": PyFunc(lambda a, k: a[0], "bool")}}
+        d.update(shared)  # class-level state: the very same objects for every instance
+        return d
+
+    def class_state(cls):
+        out = {}
+        for name, v in (cls.attrs or {}).items():
+            if isinstance(v, ast.Dict) and not v.keys:
+                out[name] = {}
+            elif isinstance(v, (ast.List, ast.Set)) and not v.elts:
+                out[name] = []
+            elif isinstance(v, ast.Constant):
+                out[name] = v.value if isinstance(v.value, (str, bool)) or v.value is None else to_poly(v.value)
+        return out
+
+    def narrowed(p):
+        return "f32<" in str(p)
+
+    for b, c in classes.items():
+        shared = class_state(c)
+        fresh = {}
+        for mname, args in sigs.items():
+            if mname not in c.methods:
+                continue
+            site = f"{c.relpath}::{c.name}.{mname} [64b instance after a 32b instance of the same class]"
+            try:
+                fresh[mname] = to_poly(_eval_method(c, mname, args, attrs_for(c, 64, class_state(c))))
+            except Undecided as e:
+                ctx.unrecognised(rid, c.methods[mname], mname, f"not interpretable: {e}")
+                continue
+        for mname, args in sigs.items():
+            if mname in fresh:
+                try:
+                    _eval_method(c, mname, args, attrs_for(c, 32, shared))
+                except Undecided:
+                    pass
+        for mname, args in sigs.items():
+            if mname not in fresh:
+                continue
+            site = f"{c.relpath}::{c.name}.{mname} [64b instance after a 32b instance of the same class]"
+            try:
+                after = to_poly(_eval_method(c, mname, args, attrs_for(c, 64, shared)))
+            except Undecided as e:
+                ctx.unrecognised(rid, c.methods[mname], mname, f"not interpretable after the 32b instance: {e}")
+                continue
+            if narrowed(fresh[mname]):
+                ctx.violated(rid, c.methods[mname], f"{mname} at 64b", f"a backend configured for 64 bits computes {mname} with a constant that was narrowed to 32 bits when the module was imported (the library's default width at import time is not the backend's precision): the result carries a relative error of 1e-8 that grows to 1e-5 in the far tails", expected="constants in binary64 (python floats / math.sqrt) or created per call in the backend's float type", found=str(fresh[mname])[:200])
+            elif after != fresh[mname] or narrowed(after):
+                ctx.violated(rid, c.methods[mname], f"{mname} at 64b after a 32b instance", f"{mname} of a 64-bit backend depends on a 32-bit backend of the same class having been used earlier in the process: values cached on the CLASS in the first instance's float type are reused", expected=str(fresh[mname])[:200], found=str(after)[:200])
+            else:
+                ctx.holds(rid, site, "same expression as in a fresh process; nothing narrowed")
 
 
 def run(ctx):
@@ -92,8 +210,10 @@ def run(ctx):
 
     r8 = ctx.rule("C04.R8", "DTYPE: no probability primitive applies an operation that truncates on integer input (numpy reciprocal / floor_divide / //) to a caller-supplied argument that nothing has made floating: the documented defaults mu=0, sigma=1 and user calls like normal_cdf(x, 10, 2) pass python ints", "DTYPE", floor=2)
     r7 = ctx.rule("C04.R7", "MODE: nothing in src/pyhf switches the numeric mode of a tensor library in a way that changes results process-wide (denormal flushing, TF32 / reduced matmul precision, fast-math): such a switch silently turns Poisson terms of denormal rates into -inf and far-tail probabilities into 0, also for backends selected later", "MODE", floor=2)
+    r9 = ctx.rule("C04.R9", "WIDTH-HISTORY: per backend class, a 32-bit instance evaluates every probability primitive and then a 64-bit instance does, class-level containers shared and module-level tensor constants as the import creates them (torch / tensorflow default to 32 bits at import): the 64-bit expressions contain nothing narrowed to 32 bits and equal those of a fresh process", "HISTORY", floor=16)
     _numeric_mode(ctx, r7, repo)
     _int_dtype(ctx, r8, repo)
+    _width_history(ctx, r9, classes)
     n, lam, x, mu, sigma = (Poly.atom(s) for s in ("n", "lam", "x", "mu", "sigma"))
     ref_pois = fn("xlogy", n, lam) - lam - fn("gammaln", n + 1)
     ref_norm = -fn("log", sigma * fn("sqrt", 2 * Poly.atom("PI"))) - ((x - mu) / (fn("sqrt", Poly.const(2)) * sigma)) ** 2
